@@ -38,13 +38,13 @@ pub const SUBS: &[SubDef] = &[
 ];
 
 fn run(ctx: &Ctx) {
-    ctx.run_tape("single", single, ctx.pick(15_000, 800_000), 400);
-    ctx.run_tape("lists", lists, ctx.pick(10_000, 600_000), 900);
+    ctx.run_tape("single", single, ctx.pick(150_000, 800_000), 400);
+    ctx.run_tape("lists", lists, ctx.pick(100_000, 600_000), 900);
     ctx.run_enum("classify", classify, true, "all 65536 extension types x 3 bodies x (3 dispatchers + 16 single-purpose parsers)", (0..=65535u32).map(|v| vec![(v >> 8) as u8, v as u8]));
-    ctx.run_tape("empty_only", empty_only, ctx.pick(3_000, 100_000), 64);
-    ctx.run_tape("overlong", overlong, ctx.pick(6_000, 300_000), 700);
-    ctx.run_tape("tag_arbitrary", tag_arbitrary, ctx.pick(10_000, 500_000), 300);
-    ctx.run_tape("inner_overlong", inner_overlong, ctx.pick(8_000, 400_000), 300);
+    ctx.run_tape("empty_only", empty_only, ctx.pick(30_000, 100_000), 64);
+    ctx.run_tape("overlong", overlong, ctx.pick(60_000, 300_000), 700);
+    ctx.run_tape("tag_arbitrary", tag_arbitrary, ctx.pick(100_000, 500_000), 300);
+    ctx.run_tape("inner_overlong", inner_overlong, ctx.pick(80_000, 400_000), 300);
 }
 
 type P = fn(&[u8]) -> IResult<&[u8], TlsExtension>;
